@@ -869,3 +869,41 @@ def driver_advance_rule(chk, prog, roles, rule="ADVANCE"):
     chk.require(not others, rule, "%s/no-other-writer" % rule, loc_str(others[0].node) if others else loc_str(loop),
                 "inside the loop the cursor is written only by that statement and the count only by the line parser",
                 ", ".join("%s at %s" % (a.text, loc_str(a.node)) for a in others))
+
+
+def comment_cannot_fail_rule(chk, prog, roles, rule="COMMENT"):
+    """a line that starts with a comment introducer is skipped whatever follows: no return of the line parser reports failure"""
+    sf = facts_for(prog, roles)
+    lp = prog.fn(roles.line_parser)
+    n = 0
+    for c0 in sf["classes"]:
+        if c0[2] not in COMMENT_INTRO:
+            continue
+        n += 1
+        worst = None
+        for c1 in sf["classes"]:
+            for where, ret, out in sf["facts"][(c0, c1)]["returns"]:
+                if truth(ret) is True and worst is None:
+                    worst = "text %s %s: the return at %s reports failure" % (cname(c0), cname(c1), where)
+        chk.require(worst is None, rule, "%s/%s" % (rule, cname(c0)), loc_str(lp),
+                    "a line starting with %s is accepted whatever its tail contains (comment text is never inspected)" % cname(c0), worst or "")
+    chk.floor("comment introducers the filter stops at", n, 1)
+
+
+def room_only_when_emitting_rule(chk, prog, roles, rule="ROOMSKIP"):
+    """the room check belongs to writing an instruction: in the driver it is made only where the line is known not to be a SKIP
+    line (comment, blank, label), otherwise layout-only text fails near the end of a caller-supplied buffer"""
+    from . import guards as GD
+    skip = prog.enums.get("SKIP")
+    if skip is None:
+        raise AnalysisBroken("enumerator SKIP not found")
+    n = 0
+    for call, facts in GD.facts_at_calls(prog, roles.driver):
+        if callee_name(call) != roles.room_check:
+            continue
+        n += 1
+        ok = GD.holds(facts, lambda t: t.endswith(".key") or t.endswith("->key"), skip, False)
+        chk.require(ok, rule, "%s/%s@%s" % (rule, roles.driver, loc_str(call)), loc_str(call),
+                    "the driver checks for room only for a line that emits an instruction (its key is known not to be SKIP)",
+                    "called for every line")
+    chk.ok(rule, "%s/inventory" % rule, loc_str(prog.fn(roles.driver)), "room checks made directly in the driver: %d, each only for emitting lines" % n)
